@@ -179,12 +179,22 @@ type workerProc struct {
 }
 
 type tailBuffer struct {
-	mu  sync.Mutex
-	buf []byte
+	mu    sync.Mutex
+	buf   []byte
+	cause string // the first "panic:" / "fatal error:" line seen: it scrolls out of the tail when many goroutines are dumped
 }
 
 func (t *tailBuffer) Write(p []byte) (int, error) {
 	t.mu.Lock()
+	if t.cause == "" {
+		for _, l := range strings.Split(string(p), "\n") {
+			l = strings.TrimSpace(l)
+			if strings.HasPrefix(l, "panic:") || strings.HasPrefix(l, "fatal error:") {
+				t.cause = l
+				break
+			}
+		}
+	}
 	t.buf = append(t.buf, p...)
 	if len(t.buf) > 32<<10 {
 		t.buf = t.buf[len(t.buf)-(16<<10):]
@@ -196,6 +206,9 @@ func (t *tailBuffer) Write(p []byte) (int, error) {
 func (t *tailBuffer) String() string {
 	t.mu.Lock()
 	defer t.mu.Unlock()
+	if t.cause != "" && !strings.Contains(string(t.buf), t.cause) {
+		return t.cause + "\n[...]\n" + string(t.buf)
+	}
 	return string(t.buf)
 }
 
